@@ -36,13 +36,17 @@ MANIFEST = {
             "workflow_context.py, workflow_deterministic.py and task.py on every run (where the DeterministicExecutor lives, "
             "whether seeds contain the workflow id, whether the sub-task record key contains the call identity, whether the "
             "replay branch of execute_task hands the recorded invocation back unconditionally, whether the value generators "
-            "keep no state outside their own call - no class-level / module-level / global-generator state): for EVERY "
+            "keep no state outside their own call - no class-level / module-level / global-generator state -, whether "
+            "execute_task keeps no state outside the workflow data; executor scope = on the running invocation / per Task object / "
+            "in a container of the process keyed by the invocation id or object, also a weak one): for EVERY "
             "list of begin/operation events (any number of executions, processes, task objects, workflows, any interleaving "
             "at operation granularity) with a per-execution executor the n-th random/time/uuid of two executions of the same "
             "workflow is equal, a sub-task call is launched at most once per (workflow, call) and every execution gets that "
             "launch back, values returned to different workflows are different symbolic values and an execution only writes "
             "records of its own workflow; the executor scope the current source implements (cached per Task object) is refuted "
-            "by computed witnesses, and the statement is proved equivalent to scope = per execution; a guarded replay branch "
+            "by computed witnesses, as is an executor kept in a process container keyed by the invocation (id or object), and the "
+            "statement is proved equivalent to scope = per execution; a process-wide cache of resolved sub-task invocations keyed by "
+            "the call only, a guarded replay branch "
             "(re-launch depending on the state of the recorded sub-invocation) and a value generator that goes through "
             "process-wide state (pre-empted between preparing and drawing) are refuted by computed witnesses too. Tie: generated "
             "histories (retry, runner death + recovery, fresh app image over the same SQLite file, other workflows sequentially "
@@ -56,7 +60,11 @@ MANIFEST = {
             "Interleaving granularity in the MODEL is one helper call; on the implementation side threads are baton-scheduled at "
             "operation boundaries and, in the pre-emption histories, at source-line boundaries of pynenc/workflow/*.py inside a "
             "call (not inside the state backend / orchestrator code a call reaches; at most two calls pre-empted per history); "
-            "attempts of ONE workflow never overlap in time (the status machine gives an invocation one owner). The sub-task body "
+            "attempts of ONE workflow never overlap in time (the status machine gives an invocation one owner). Per history the "
+            "runner of an image either drops the invocation object of a finished attempt, still references it (ThreadRunner's thread "
+            "table) or re-runs the object it holds. Mutable module-level / class-level containers of pynenc.workflow.* are kept "
+            "per process image and reset per history by the harness (ProcState), other process-global objects are not. Any exception "
+            "out of the implementation while a history runs is reported as a violation with a replay. The sub-task body "
             "issues no workflow operations itself. A fresh process image is a fresh "
             "Pynenc app object with fresh Task objects over the same SQLite file (thorough tier adds a real child OS process). "
             "Known finding: the executor is cached per Task object (Task.wf cached_property + WorkflowContext._deterministic).",
@@ -1171,6 +1179,10 @@ def evaluate(ctx: Ctx, cases: list[dict], scratch: str) -> None:
         if pick is None:
             pick = next((j for j, (g, f) in enumerate(cands) if all(cmp_obs[k] == f[k] for k in ("outs", "store", "launches"))), 0)
         m_gen, m_fix = cands[pick]
+        if tinfo.get("container_weak") and case.get("objs", "fresh") == "fresh" and not tinfo.get("degraded", False):
+            # executor in a WEAK container keyed by the invocation object: with no reference to the object of the
+            # earlier attempt left, the entry is gone and the source behaves as with a per-execution executor
+            m_gen = m_fix
         if pre:
             stats["linearisation_used"][str(pick)] = stats["linearisation_used"].get(str(pick), 0) + 1
         for _w, _c, how, res in raw["child_runs"]:
@@ -1339,7 +1351,8 @@ def main(ctx: Ctx) -> int:
     finally:
         world.rm_scratch(scratch)
     ctx.notes["generated_facts"] = {k: info.get(k) for k in ("scope", "executor_held_by", "wf_context_per", "seed_wf",
-                                                              "task_key_call", "seq_offset", "replay_uncond", "gen_private", "gen_shared_state", "degraded")}
+                                                              "task_key_call", "seq_offset", "replay_uncond", "gen_private", "gen_shared_state", "exec_private",
+                                                              "exec_shared_state", "container", "container_weak", "degraded")}
     ctx.assumptions += [
         "symbolic values: md5 / random.Random / uuid.UUID are functions of their seed string (uninterpreted in the model); "
         "the harness decodes real values with the real functions over the workflow ids of the history",
@@ -1348,6 +1361,9 @@ def main(ctx: Ctx) -> int:
         "uninterrupted; executions of ONE workflow do not overlap in time (one owner per invocation, C02)",
         "a pre-empted helper call of the unchanged code is linearisable: the implementation must agree with the model for SOME "
         "position of the call between its pre-emption and its completion (clock readings and launch numbering decide which)",
+        "the invocation object of an earlier attempt of the same image is dropped / still referenced by the runner / re-run (per "
+        "history); module-level and class-level dict / list / set / deque / weak containers of pynenc.workflow.* are state of one "
+        "process image: saved and restored by the harness when it switches images, reset between histories",
         "sub-invocations are run by the harness (DistributedInvocation.run of the recorded invocation) and end as the schedule "
         "says: return / ValueError / RetryError / runner death / killed before start / left pending",
         "a fresh process image = a fresh Pynenc app object (fresh Task objects) over the same SQLite file; the in-memory backend "
@@ -1368,7 +1384,8 @@ def main(ctx: Ctx) -> int:
              "re-executions of its parent, and for every helper-call kind (quick: pairs of the same kind; thorough: all 16 pairs) the "
              "pre-emption before EVERY source line of pynenc/workflow/ executed by the call (line count probed on the current tree; "
              "simple, lock-step and second-call variants; quick tier on SQLite every third line); random histories additionally carry "
-             "child runs and (pattern preempt) pre-empted calls; each history runs on the real code and in the model "
+             "child runs, (pattern preempt) pre-empted calls and one of the three treatments of earlier invocation objects (the "
+             "enumerated retry shapes take all three + recovery with a kept object); each history runs on the real code and in the model "
              "(gen_cfg and gen_cfg with a per-execution executor); evaluations = histories executed; distinct_nontrivial = distinct "
              "histories with more than one execution or operation")
 
